@@ -166,9 +166,9 @@ func (h *H) eval(s []byte, origin string) {
 		if nIdent < len(distinct) {
 			key = "roundtrip:ident-case-collapsed"
 		} else if forwardUnmask(masked, masks) == str {
-			// restoring the masks first-to-last (Replace once / ReplaceAll for identifiers), as the
-			// model does, WOULD have returned s: the real code deviates from that order/semantics.
-			key = "roundtrip:restore-order-deviation"
+			// the single-pass restoration the model describes WOULD have returned s: the real code
+			// deviates from it.
+			key = "roundtrip:restore-deviation"
 			if identPlaceholderInLaterLiteral(ms) {
 				key = "roundtrip:ident-placeholder-inside-later-literal"
 			}
@@ -230,17 +230,26 @@ func (h *H) eval(s []byte, origin string) {
 	}
 }
 
-// forwardUnmask: the documented restoration — masks in order, first occurrence for string masks,
-// every occurrence for identifier masks (what the Lean model `unmask` does).
+// forwardUnmask: the documented restoration — ONE pass over the text, at each position the first
+// mask (in order) whose placeholder matches is replaced and skipped (what the Lean model `unmask` does).
 func forwardUnmask(text string, masks []sqlutil.StringMask) string {
-	for _, m := range masks {
-		if m.Identifier {
-			text = strings.ReplaceAll(text, m.Placeholder, m.Original)
-		} else {
-			text = strings.Replace(text, m.Placeholder, m.Original, 1)
+	var sb strings.Builder
+	for i := 0; i < len(text); {
+		hit := false
+		for _, m := range masks {
+			if m.Placeholder != "" && strings.HasPrefix(text[i:], m.Placeholder) {
+				sb.WriteString(m.Original)
+				i += len(m.Placeholder)
+				hit = true
+				break
+			}
+		}
+		if !hit {
+			sb.WriteByte(text[i])
+			i++
 		}
 	}
-	return text
+	return sb.String()
 }
 
 // identPlaceholderInLaterLiteral: some string literal contains the exact placeholder text of a quoted
